@@ -5,6 +5,11 @@ THEOREMS = [
     'CpProofs.C14.C14_fresh_not_live',
     'CpProofs.C14.C14_regenerate_fresh',
     'CpProofs.C14.regen_total',
+    'CpProofs.C14.request_frame',
+    'CpProofs.C14.C14_persist_store',
+    'CpProofs.C14.C14_load_live',
+    'CpProofs.C14.C14_persist',
+    'CpProofs.C14.C14_save_stores',
     'CpProofs.C14.C14_sweep_exact_ram',
     'CpProofs.C14.C14_sweep_exact_file',
     'CpProofs.C14.C14_boundary_tick',
